@@ -12,6 +12,8 @@ import argparse
 import importlib
 import json
 import os
+import shutil
+import signal
 import subprocess
 import sys
 import tempfile
@@ -41,12 +43,27 @@ def _run_shard_subprocess(prop, spec, idx, outdir, timeout):
         json.dump(spec, fh)
     cmd = [env.PY, "-m", "lib.shard", prop, specf, out]
     t0 = time.time()
+    # every shard gets its own scratch directory (TMPDIR) and its own process group: both are removed
+    # when the shard ends, however it ends (workers of a timed-out LCD search included)
+    tmpd = os.path.join(outdir, "tmp%03d" % idx)
+    os.makedirs(tmpd, exist_ok=True)
+    p = subprocess.Popen(cmd, env=env.child_env({"TMPDIR": tmpd}), cwd=env.VERIF, stdout=subprocess.PIPE,
+                         stderr=subprocess.PIPE, start_new_session=True)
     try:
-        p = subprocess.run(cmd, env=env.child_env(), cwd=env.VERIF, capture_output=True,
-                           timeout=timeout)
-        rc, so, se = p.returncode, p.stdout.decode(errors="replace"), p.stderr.decode(errors="replace")
-    except subprocess.TimeoutExpired as e:
+        so, se = p.communicate(timeout=timeout)
+        rc, so, se = p.returncode, so.decode(errors="replace"), se.decode(errors="replace")
+    except subprocess.TimeoutExpired:
         rc, so, se = -9, "", "shard timeout after %ss" % timeout
+    finally:
+        try:
+            os.killpg(p.pid, signal.SIGKILL)
+        except (ProcessLookupError, PermissionError):
+            pass
+        try:
+            p.communicate(timeout=10)
+        except Exception:
+            pass
+        shutil.rmtree(tmpd, ignore_errors=True)
     res = None
     if os.path.exists(out):
         try:
